@@ -358,8 +358,17 @@ def explore(sched, make_bodies, bound, check, prefix=(), expect=None, stats=None
         if max_exec is not None and stats["executions"] >= max_exec:
             stats["capped"] = True
             break
-        bodies, cobj = make_bodies()
-        x = sched.run(bodies, pre, exp)
+        for attempt in range(3):
+            bodies, cobj = make_bodies()
+            try:
+                x = sched.run(bodies, pre, exp)
+                break
+            except HarnessError as e:
+                # a replayed prefix must reproduce its parent's points exactly.  A single retry is allowed (and
+                # counted) before this becomes a harness error: it is never turned into a violation either way.
+                if "replay divergence" not in str(e) or attempt == 2:
+                    raise
+                stats["divergence_retries"] = stats.get("divergence_retries", 0) + 1
         stats["executions"] += 1
         stats["points"] += len(x.points)
         stats["by_preemptions"][x.preemptions] = stats["by_preemptions"].get(x.preemptions, 0) + 1
